@@ -329,6 +329,26 @@ def run_case(case):
                     return fail(f"Python wrote {v} to {owner}.{name}:{f}, "
                                 f"the program read {got}",
                                 bucket=("py->prog", f[-1]))
+        # ---- a Python write that the format refuses leaves no trace: the
+        # variable keeps the value the program stored
+        if not percpu:
+            for i, (owner, name, f) in enumerate(inst):
+                if f == "x":
+                    bad = 1e30
+                else:
+                    lo, hi = dsl.fmt_range(f[-1])
+                    bad = hi + 1 + values[i]["k"] if values[i]["k"] % 2 \
+                        else lo - 1
+                    if len(f) > 1:
+                        bad = tuple([1] * (nelem(f) - 1) + [bad])
+                try:
+                    setattr(obj(e, owner), name, bad)
+                except (struct.error, OverflowError):
+                    continue
+                # (accepted after all: write the stored value again)
+                v = values[i]["prog"]
+                setattr(obj(e, owner), name, v / 100000 if f == "x" else (
+                    tuple(v) if len(f) > 1 else v))
         # ---- program -> python
         if percpu:
             e.vmap.read()
@@ -366,7 +386,9 @@ def run_case(case):
                                 bucket=("prog->py-percpu", f[-1]))
             elif got != want:
                 return fail(f"program stored {v} in {owner}.{name}:{f}, "
-                            f"Python reads {got}",
+                            f"Python reads {got} (after Python writes of "
+                            f"out-of-range values to the variables of the "
+                            f"map, which were refused)",
                             bucket=("prog->py", f[-1]))
         sizes = {struct.calcsize(f) if f != "x" else 8 for o, n, f in inst}
         special = percpu or case["base"] or case["subs"] or any(
